@@ -200,6 +200,60 @@ func (a *Automaton) Run() *Result {
 	// correlation: a boolean SSA value branched on by several Ifs has one
 	// value per execution of its defining instruction; later branches on it
 	// must agree with the earlier one (removes infeasible paths soundly).
+	// … generalised to equality tests over the same SSA operands: `err == nil`
+	// and a later `err != nil` (two different boolean values) are one fact
+	// about the immutable value err. canon maps such a comparison to the first
+	// comparison seen over the same operand pair, with eqNeg telling whether it
+	// has the opposite sense.
+	canonOf := map[ssa.Value]ssa.Value{}
+	eqNeg := map[ssa.Value]bool{}
+	{
+		opKey := func(v ssa.Value) string {
+			switch k := v.(type) {
+			case *ssa.Const:
+				return "const:" + k.String()
+			case *ssa.Phi:
+				return "" // loop-carried: not one immutable value per execution
+			}
+			return fmt.Sprintf("%p", v)
+		}
+		first := map[string]ssa.Value{}
+		for _, b := range fn.Blocks {
+			if len(b.Instrs) == 0 {
+				continue
+			}
+			ifi, ok := b.Instrs[len(b.Instrs)-1].(*ssa.If)
+			if !ok {
+				continue
+			}
+			v, _ := peelNot(ifi.Cond)
+			bo, ok := v.(*ssa.BinOp)
+			if !ok || (bo.Op != token.EQL && bo.Op != token.NEQ) {
+				continue
+			}
+			kx, ky := opKey(bo.X), opKey(bo.Y)
+			if kx == "" || ky == "" {
+				continue
+			}
+			if ky < kx {
+				kx, ky = ky, kx
+			}
+			key := kx + "|" + ky
+			if f, ok := first[key]; ok {
+				canonOf[v] = f
+				eqNeg[v] = (bo.Op == token.NEQ) != (f.(*ssa.BinOp).Op == token.NEQ)
+			} else {
+				first[key] = v
+				canonOf[v] = v
+			}
+		}
+	}
+	canon := func(v ssa.Value) (ssa.Value, bool) {
+		if c, ok := canonOf[v]; ok {
+			return c, eqNeg[v]
+		}
+		return v, false
+	}
 	condUse := map[ssa.Value][]*ssa.If{}
 	for _, b := range fn.Blocks {
 		if len(b.Instrs) == 0 {
@@ -207,6 +261,7 @@ func (a *Automaton) Run() *Result {
 		}
 		if ifi, ok := b.Instrs[len(b.Instrs)-1].(*ssa.If); ok {
 			v, _ := peelNot(ifi.Cond)
+			v, _ = canon(v)
 			condUse[v] = append(condUse[v], ifi)
 		}
 	}
@@ -236,6 +291,7 @@ func (a *Automaton) Run() *Result {
 		}
 		if ifi, ok := b.Instrs[len(b.Instrs)-1].(*ssa.If); ok {
 			v, _ := peelNot(ifi.Cond)
+			v, _ = canon(v)
 			dup := false
 			for _, o := range condVals {
 				if o == v {
@@ -247,9 +303,44 @@ func (a *Automaton) Run() *Result {
 			}
 		}
 	}
+	// returned error values that a branch has tested need their equality fact
+	// (see SplitOf): retFact maps the return to the If that tested its value
+	retFact := map[*ssa.Return]*ssa.If{}
+	needFact := map[ssa.Value]bool{}
+	for _, b := range fn.Blocks {
+		for _, in := range b.Instrs {
+			rt, ok := in.(*ssa.Return)
+			if !ok {
+				continue
+			}
+			sp := SplitOf(rt)
+			if sp == nil || !sp.Tested {
+				continue
+			}
+			for _, bb := range fn.Blocks {
+				if len(bb.Instrs) == 0 {
+					continue
+				}
+				ifi, ok := bb.Instrs[len(bb.Instrs)-1].(*ssa.If)
+				if !ok {
+					continue
+				}
+				raw, _ := peelNot(ifi.Cond)
+				bo, ok := raw.(*ssa.BinOp)
+				if !ok || (bo.Op != token.EQL && bo.Op != token.NEQ) {
+					continue
+				}
+				if (bo.X == sp.Val && isNilConst(bo.Y)) || (bo.Y == sp.Val && isNilConst(bo.X)) {
+					retFact[rt] = ifi
+					cv, _ := canon(raw)
+					needFact[cv] = true
+				}
+			}
+		}
+	}
 	for _, v := range condVals {
 		ifis := condUse[v]
-		if (len(ifis) < 2 && !hasConstEdge(v)) || nUser+nCorr >= 31 {
+		if (len(ifis) < 2 && !hasConstEdge(v) && !needFact[v]) || nUser+nCorr >= 31 {
 			continue
 		}
 		if ph, ok := v.(*ssa.Phi); ok {
@@ -259,12 +350,25 @@ func (a *Automaton) Run() *Result {
 		nCorr++
 		for _, ifi := range ifis {
 			corrIdx[ifi] = ti
-			_, neg := peelNot(ifi.Cond)
+			raw, neg := peelNot(ifi.Cond)
+			if _, en := canon(raw); en {
+				neg = !neg
+			}
 			corrNeg[ifi] = neg
 		}
-		if def, ok := v.(ssa.Instruction); ok {
+		_, isEqFact := canonOf[v]
+		if def, ok := v.(ssa.Instruction); ok && !isEqFact {
 			if _, isPhi := v.(*ssa.Phi); !isPhi {
 				corrDef[def] = append(corrDef[def], ti)
+			}
+		}
+		// an equality fact is about its operands: when one of them is
+		// (re)defined, the fact is unknown again
+		if bo, ok := v.(*ssa.BinOp); ok && (bo.Op == token.EQL || bo.Op == token.NEQ) {
+			for _, opnd := range []ssa.Value{bo.X, bo.Y} {
+				if def, ok := opnd.(ssa.Instruction); ok {
+					corrDef[def] = append(corrDef[def], ti)
+				}
 			}
 		}
 	}
@@ -351,7 +455,27 @@ func (a *Automaton) Run() *Result {
 				if sp := SplitOf(rt); sp != nil {
 					// logical returns of a tail return (see SplitOf)
 					cond := Cond{IsRel: true, Op: token.NEQ, X: a.P.D(sp.Val), Y: "nil", XV: sp.Val}
+					// a tested value: the recorded outcome of the test says
+					// which logical return this path takes
+					known := Unseen // True: value != nil
+					if ifi0 := retFact[rt]; ifi0 != nil {
+						if ci, ok := corrIdx[ifi0]; ok {
+							if cur := st.get(ci); cur != Unseen {
+								raw0, neg0 := peelNot(ifi0.Cond)
+								isEq := raw0.(*ssa.BinOp).Op == token.EQL
+								t := (cur == True) != corrNeg[ifi0] // truth of ifi0's condition
+								nonNil := (t != neg0) != isEq
+								known = False
+								if nonNil {
+									known = True
+								}
+							}
+						}
+					}
 					for e, twin := range []*ssa.Return{sp.Err, sp.Nil} {
+						if (e == 0 && known == False) || (e == 1 && known == True) {
+							continue
+						}
 						ns := st
 						for ti, t := range a.Tracks {
 							if t.If == nil {
